@@ -16,12 +16,13 @@ CONSTANT CrashMode   \* "atomic" (C03) | "readable" (C02): what a CrashProbe eve
 
 Rec == ndJsonDeserialize(IOEnv.TRACE)
 
-VARIABLES db, l
-tvars == <<db, l>>
+VARIABLES db, l,
+          prev   \* the model state before the last mutating step (what a crash inside that step may recover, C03)
+tvars == <<db, l, prev>>
 
 E == Rec[l]
 IsEvent(n) == l <= Len(Rec) /\ Rec[l].ev = n /\ l' = l + 1
-Same == db' = db
+Same == db' = db /\ prev' = prev
 
 \* ---- decoding of dumps ---------------------------------------------------------------
 FnOf(pairs) == [k \in {p[1] : p \in Range(pairs)} |-> (CHOOSE p \in Range(pairs) : p[1] = k)[2]]
@@ -71,12 +72,17 @@ MutEvs == {"InsertNodes", "UpdateNodes", "InsertEdges", "UpdateEdges", "InsertAl
 NextObs == IF l + 1 <= Len(Rec) /\ Rec[l + 1].ev = "Observe" THEN DumpState(Rec[l + 1]) ELSE db
 Unchanged13 == /\ db' = (IF SameUpToOrder(db, NextObs) THEN NextObs ELSE db)
 
-TInit == db = EmptyDb /\ l = 1
-TReset == IsEvent("Reset") /\ db' = EmptyDb
+TInit == db = EmptyDb /\ prev = EmptyDb /\ l = 1
+TReset == IsEvent("Reset") /\ db' = EmptyDb /\ prev' = EmptyDb
 
-TMut == /\ l <= Len(Rec) /\ E.ev \in MutEvs /\ l' = l + 1
+\* C32: the driver made one storage write / resize of this query fail (fault = TRUE): the query must
+\* report an error and leave no effect, whatever its arguments
+Faulted(e) == "fault" \in DOMAIN e /\ e.fault
+
+TMut == /\ l <= Len(Rec) /\ E.ev \in MutEvs /\ l' = l + 1 /\ prev' = db
         /\ OthersAgree(E)
-        /\ IF E.ok
+        /\ IF Faulted(E) THEN ~E.ok /\ Unchanged13
+           ELSE IF E.ok
            THEN LET r == Apply(db, E) IN r.ok /\ ResultOk(db, E) /\ db' = r.s
            ELSE ~ShouldSucceed(db, E) /\ Unchanged13
 
@@ -88,7 +94,8 @@ TxFold(s, qs, i, n) ==   \* applies queries i..n, all of which the implementatio
   ELSE IF ~qs[i].ok THEN Fail
   ELSE LET r == Apply(s, qs[i]) IN IF r.ok /\ ResultOk(s, qs[i]) THEN TxFold(r.s, qs, i + 1, n) ELSE Fail
 
-TTx == /\ IsEvent("Tx") /\ OthersAgree(E)
+TTx == /\ IsEvent("Tx") /\ OthersAgree(E) /\ prev' = db
+       /\ (Faulted(E) => ~E.ok)
        /\ IF E.ok
           THEN /\ \A i \in DOMAIN E.queries : E.queries[i].ok
                /\ LET r == TxFold(db, E.queries, 1, Len(E.queries)) IN r.ok /\ db' = r.s
@@ -98,7 +105,7 @@ TTx == /\ IsEvent("Tx") /\ OthersAgree(E)
                    good == IF n > 0 /\ ~E.queries[n].ok THEN n - 1 ELSE n
                    r == TxFold(db, E.queries, 1, good) IN
                /\ r.ok
-               /\ (good < n => ~ShouldSucceed(r.s, E.queries[n]))
+               /\ (good < n /\ ~Faulted(E) => ~ShouldSucceed(r.s, E.queries[n]))
                /\ Unchanged13
 
 \* ---- reads ------------------------------------------------------------------------------
@@ -190,20 +197,38 @@ TObserve == /\ IsEvent("Observe") /\ Same
             /\ \A i \in DOMAIN E.others : E.others[i] = E.digest
 
 \* a crash image taken inside the last query / transaction was reopened by the real database:
-\*   readable (C02): it opened and every read of the canonical dump succeeded;
-\*   atomic   (C03): its dump equals the (validated) dump before or after that query / transaction.
+\*   readable (C02): it opened, every read of the canonical dump succeeded and the dump is a well formed database;
+\*   atomic   (C03): the dump IS the model state before (prev) or after (db) that query / transaction.
+\* One event per distinct recovered dump of the step (the driver only groups equal dumps; TLC decides).
 TCrashProbe == /\ IsEvent("CrashProbe") /\ Same
                /\ E.ok
-               /\ (CrashMode = "atomic" => E.same_as \in {"before", "after"})
+               /\ LET d == DumpState(E.dump) IN
+                  /\ DbInv(d)
+                  /\ (CrashMode = "atomic" => d = prev \/ d = db)
 
 \* maintenance operations change nothing (C05): the Observe that follows must equal the state
-TMaintain == IsEvent("Maintain") /\ E.ok /\ Same
+TMaintain == IsEvent("Maintain") /\ E.ok /\ db' = db /\ prev' = db
 
-TNext == TReset \/ TMut \/ TTx \/ TSelectValues \/ TSelectKeys \/ TSelectKeyCount \/ TSelectAliases
+\* a probe run starts from a state dumped from the real database (validated in its own run)
+TLoad == IsEvent("Load") /\ db' = DumpState(E) /\ prev' = DumpState(E) /\ DbInv(DumpState(E))
+TNote == IsEvent("Note") /\ Same
+
+TNext == TReset \/ TLoad \/ TNote \/ TMut \/ TTx \/ TSelectValues \/ TSelectKeys \/ TSelectKeyCount \/ TSelectAliases
          \/ TSelectAllAliases \/ TSelectEdgeCount \/ TSelectNodeCount \/ TSelectIndexes \/ TSearchIndex
          \/ TElements \/ TSelectIds \/ TObserve \/ TMaintain \/ TSearch \/ TCrashProbe
 
 TraceSpec == TInit /\ [][TNext]_tvars
+
+\* Skip mode (used when many runs of one file may be rejected, e.g. fault probes): a run whose next event no
+\* action accepts is reported (RUN_REJECTED <line>) and abandoned; validation resumes at the next Reset.
+\* Sound because DbTrace is deterministic (every action binds db' and l' to one value).
+RECURSIVE NextReset(_)
+NextReset(i) == IF i > Len(Rec) \/ Rec[i].ev = "Reset" THEN i ELSE NextReset(i + 1)
+TSkip == /\ l <= Len(Rec) /\ ~ENABLED TNext
+         /\ PrintT(<<"RUN_REJECTED", l>>)
+         /\ l' = NextReset(l + 1) /\ db' = EmptyDb /\ prev' = EmptyDb
+TEnd == l = Len(Rec) + 1 /\ PrintT(<<"TRACE_END", Len(Rec)>>) /\ l' = l + 1 /\ UNCHANGED <<db, prev>>
+TraceSpecSkip == TInit /\ [][TNext \/ TSkip \/ TEnd]_tvars
 
 DbInvariant == DbInv(db)
 
